@@ -69,13 +69,13 @@ def cases(rng, tier):
                         out.append([[1, m], rl, prev, a0, ops])
                         # the same start-up with a roller that FAILS on the first record(s), then further records
                         if rng.chance(1, 2):
-                            ops2 = [[7, rc.chunked(rng, rc.rec_bytes(rng, "f%d" % j, rng.choice([0, 1, 3, 7])))]
+                            ops2 = [[rng.choice([7, 12]), rc.chunked(rng, rc.rec_bytes(rng, "f%d" % j, rng.choice([0, 1, 3, 7])))]
                                     for j in range(rng.range(1, 2))]
                             for j in range(rng.range(1, 4)):
                                 ops2.append(rc.op_append(rng, "g%d" % j, rng.choice([0, 1, 2, 5, m % 120])))
                             if rng.chance(1, 3):
                                 ops2.append([1, rng.choice([1, 1, 0])])
-                                ops2.append([7 if rng.chance(1, 2) else 0,
+                                ops2.append([rng.choice([7, 12]) if rng.chance(1, 2) else 0,
                                              rc.chunked(rng, rc.rec_bytes(rng, "h", rng.range(0, 4)))])
                                 ops2.append(rc.op_append(rng, "i", rng.range(0, 4)))
                             out.append([[1, m], rl, prev, a0, ops2])
